@@ -1,7 +1,9 @@
 """C14 — modules expose exactly what they provide and are instantiated once.
 
 translate  : translate/c14_constants.py regenerates lean/SteelVerif/C14/GenConsts.lean from modules.rs / mangle.rs
-             (mangling constants, prefix layout, "the module key is the canonical path": try_canonicalize).
+             (mangling constants, prefix layout, "the module key is the canonical path": try_canonicalize);
+             translate/c14_tables.py regenerates GenTables.lean (removal sites of unused-import pruning, the list
+             forms `require` accepts, the arity dispatch and the test-arg / check-output structure of contracts.scm).
 prove      : lake build SteelVerif.C14.Props + axiom audit (mangling injective and not writable in source
              text, require modifiers, visibility = provided-and-surviving, instantiation machine for every
              request sequence over every acyclic graph).
@@ -29,50 +31,72 @@ META = {
     "ready": True,
     "category": "proof",
     "technique": "Lean 4 proofs over an executable model of the module system (name mangling, require-modifier "
-                 "flattening, compiled-module table + metadata roll-back, depth-first instantiation) by "
-                 "induction over all acyclic module graphs and all request sequences + correspondence of the "
-                 "model with one real Engine per generated module tree",
+                 "flattening, compiled-module table + metadata roll-back, depth-first instantiation, the flat global "
+                 "table with per-module `__module-` tables) incl. a refinement proof M = S on whole requests by "
+                 "simulation over all acyclic module graphs and all request sequences; a model of the contract "
+                 "mechanism of contracts.scm and of unused-import pruning, both parameterised by tables that "
+                 "translators regenerate from the source on every run; a model of macro scope across modules; "
+                 "correspondence of all of them with one real Engine per generated module tree",
     "level_text": "Theorems of SteelVerif/C14/Props.lean, for every acyclic module graph, every combination of "
                   "only-in / prefix-in / renaming modifiers and every sequence of evaluation requests (failing "
-                  "ones included): the mangled name \"##mm\"+id+\"__%#__\"+name determines (id, name), is never "
-                  "an identifier that does not begin with ##, and private names of different modules never "
-                  "collide, so a module body and a requiring program only ever write their own keys of the "
-                  "global table; a required name is bound iff it is provided and survives the modifiers (with "
-                  "prefix and alias applied), prefixes concatenate outer-first, and flattening the modifiers "
-                  "agrees with composing them on the documented forms (witnesses of disagreement elsewhere); a "
-                  "module body is evaluated at most once per engine, and exactly once as soon as a request that "
-                  "gets as far as running needs it, whatever failed before; a provided definition of a module is "
-                  "handed out bound to the module's own definition and contracted exactly when the provide form is "
-                  "contract/out, while inside the module it stays bare (contract_at_boundary_only, "
-                  "provided_def_exported); the constants of the mangling and "
-                  "the fact that a file module's identity is its canonical path (try_canonicalize) are "
-                  "re-extracted from modules.rs on every run and checked against the model by a theorem. "
-                  "The model is hand-written; it is "
-                  "tied to crates/steel-core/src/compiler/modules.rs on every run by evaluating generated module "
-                  "trees (diamonds, chains, shared private and provided names, all modifier nestings, "
-                  "contract/out on functions of 1-6 parameters with higher-order contracts and violating "
-                  "callbacks (both the specialised and the general path of contracts.scm), re-exports, module "
-                  "files in sub-directories required through different spellings of one path (./, dir/.., "
-                  "symbolic links), failing requests, several request orders) on a real Engine and "
-                  "comparing bindings, module-internal views, error kinds, instantiation counters and the real "
-                  "location of every private define (prefix ++ name) line by line.",
-    "level_note": "Trusted: Lean kernel (axioms propext, Classical.choice, Quot.sound only), harness/driver/"
-                  "comparison, the file system (module files do not change while an engine lives). Macros and "
-                  "for-syntax provides/requires, built-in and resolver modules and the contract combinators "
-                  "themselves (contracts.scm) are in scope as far as the module boundary goes - a contracted export "
-                  "must reject violating flat arguments and violating callbacks outside the module and check "
-                  "nothing inside - and are exercised through the generated programs, not modelled; unused-import "
-                  "pruning is modelled only as far as it decides which module tables a body refers to. Open "
-                  "findings: K14c modifiers are flattened instead of composed (by design), K14d a mangled name "
-                  "can be written as |##mm...| (the lexical hypothesis of mangle_not_user_writable is false for "
-                  "escaped identifiers). Fixed by this check: d10f8017 (roll-back of table and metadata), "
-                  "1587f6f5 (contract/out imports mangled).",
+                  "ones included). (1) Mangling: \"##mm\"+id+\"__%#__\"+name determines (id, name), is never an "
+                  "identifier that does not begin with ##, private names of different modules never collide. "
+                  "(2) Modifiers: a required name is bound iff it is provided and survives the flattened modifiers; "
+                  "flattening agrees with composing on the documented forms (witnesses of disagreement elsewhere); the "
+                  "only list forms require accepts are only-in, prefix-in, for-syntax (read from the parser). "
+                  "(3) Instantiation: every body at most once, exactly once as soon as a request that gets as far as "
+                  "running needs it, whatever failed before. (4) whole_request_refinement_partial: the flat machine "
+                  "M (the code: mangled keys in one global table, flattened requires, roll-back, depth-first "
+                  "instantiation) and the per-module environments S give, request by request, the same status, bind "
+                  "every source identifier alike, have run the same module bodies exactly once each, and every read "
+                  "inside every instantiated module body resolves to what the module's own environment holds (its own "
+                  "definition first, then the import bound last) - for all graphs / request sequences / failure "
+                  "patterns inside a decidable guard (specs in the fragment canonical2, modules that refer only to "
+                  "names bound in them, programs that bind plain identifiers); outside the guard the statement is "
+                  "false for the code and the witnesses are open findings K14c / K14d. (5) Contracts: for every "
+                  "contract of order <= 2, every function body, argument list and predicate interpretation, a call "
+                  "through a contract/out export performs exactly the checks of S - each first-order value when it "
+                  "crosses the boundary, once, in order, before the body runs, callbacks wrapped so that their "
+                  "crossings are checked - and a call from inside performs none (contract_checked_at_boundary, "
+                  "contract_not_checked_inside, contract_call_ok, contract_violation_stops_at_boundary); the arity "
+                  "dispatch of bind/c and the test-arg / check-output structure of every path are re-read from "
+                  "contracts.scm on every run and checked by a theorem. (6) Pruning: a used import is never pruned, "
+                  "only unused generated ##mm imports that no macro mentions are (removal sites re-read from "
+                  "analysis.rs). (7) Macros across modules: a require without modifiers binds exactly the provided "
+                  "macros; three violations of the property by the code are stated with witnesses (K14e, K14f, K14g). "
+                  "The models are hand-written; they are tied to the code on every run by translators "
+                  "(c14_constants.py, c14_tables.py + decide obligations) and by evaluating generated module trees "
+                  "(diamonds, chains, shared private and provided names, all modifier nestings, contract/out on "
+                  "functions of 1-6 parameters with higher-order contracts, violating callbacks and a counting "
+                  "predicate (number of predicate evaluations per call from outside and from inside), re-exports, "
+                  "macros provided as identifiers / for-syntax / private and used inside modules, module files in "
+                  "sub-directories required through different spellings of one path, failing requests, unknown "
+                  "require forms, several request orders) on a real Engine and comparing bindings, module-internal "
+                  "views, error kinds, instantiation counters, check counts and the real location of every private "
+                  "define line by line; inside the guard of the refinement theorem the real engine must equal S "
+                  "outright (no finding can be appealed to).",
+    "level_note": "Trusted: Lean kernel (axioms propext, Classical.choice, Quot.sound only), the translators (regex / "
+                  "bracket matching / an s-expression reader), harness/driver/comparison, the file system (module "
+                  "files do not change while an engine lives). Whether a request fails is an input of the models "
+                  "(macro mismatch, free identifier, runtime error in the last expression); module bodies that raise "
+                  "half-way, what macros expand to, blame labels, contracts of order > 2, built-in and resolver "
+                  "modules are not modelled. The macro layer is outside the refinement theorem. Open findings: "
+                  "K14c modifiers are flattened instead of composed (by design), K14d a mangled name can be written "
+                  "as |##mm...|, K14e require modifiers are not applied to provided macros (only-in does not hide "
+                  "them, prefix-in skips for-syntax provides), K14f the macros of a program that fails to compile or "
+                  "build stay in the engine, K14g an imported macro displaces (and a plain require even deletes) a "
+                  "module's own macro of the same name; candidate K14h (findings/C14-K14h.raw, not exercised by the "
+                  "check): a required module's private macros are applied to a whole expression of the requiring "
+                  "module once one of its provided macros fired there. Fixed by this check: d10f8017 (roll-back of "
+                  "table and metadata), 1587f6f5 (contract/out imports mangled).",
 }
 
 VAL_NAMES = ["x", "y", "z", "w", "p"]
 FN_NAMES = ["f", "g"]
 HOF_NAMES = ["h2", "h3", "h4", "h6"]     # h<n>: n parameters, the first one a callback (contract (->/c int? int?))
 NAMES = VAL_NAMES + FN_NAMES + HOF_NAMES
+MAC_NAMES = ["mq", "mr"]                 # macros (a name whose last component starts with m)
+MAC_ALIASES = ["mm", "mz"]
 DIRS = ["", "", "sub", "sub/deep", "lib"]
 PREFIXES = ["a.", "b-", "q."]
 VAL_ALIASES = ["xx", "yy", "r1"]
@@ -81,6 +105,9 @@ FN_ALIASES = ["ff", "g2"]
 # model switches of the driver that move M towards S, one per open finding (KNOWN_FINDINGS.txt)
 FIXES = {
     "K14c": ("m", "require_modifiers_flattened_not_composed"),
+    "K14e": ("e", "require_modifiers_not_applied_to_provided_macros"),
+    "K14f": ("f", "macros_of_a_failed_request_stay_in_scope"),
+    "K14g": ("g", "imported_macro_displaces_own_macro_of_the_module"),
 }
 # defects that were fixed in /repo: the driver can re-introduce them, to name a regression
 LEGACY = {
@@ -112,6 +139,9 @@ def case_text(c):
             out.append("dir %s" % m["dir"])
         out += ["def %s" % d for d in m["defs"]]
         out += [("cprov %s" if ct else "prov %s") % n for n, ct in m["provs"]]
+        out += ["mac %s" % n for n in m.get("macs", [])]
+        out += ["mprov %s" % n for n in m.get("mprovs", [])]
+        out += ["fsprov %s" % n for n in m.get("fsprovs", [])]
         out += ["req %s" % spec_text(s) for s in m["reqs"]]
         out.append("end")
     for r in c["reqs"]:
@@ -183,6 +213,8 @@ def alias_for(rng, n):
     base = re.split(r"[.-]", n)[-1]  # a re-exported name may carry prefixes (b-h4)
     if base[:1] == "h":             # the harness reads the arity off the name: keep the h<n> marker
         return base[:2] + rng.choice("xyz")
+    if base[:1] == "m":             # a macro stays recognisable as one
+        return rng.choice(MAC_ALIASES)
     return rng.choice(FN_ALIASES if base[:1] in ("f", "g") else VAL_ALIASES)
 
 
@@ -235,7 +267,7 @@ def gen_spec(rng, provs, j, weird_ok=True):
     return only(("p", rng.choice(PREFIXES), only(base, some)), some[:1])
 
 
-def gen_graph(rng, n, shape, weird, spell=False):
+def gen_graph(rng, n, shape, weird, spell=False, macros=False):
     mods, provs = [], []
     for k in range(n):
         if k == 0:
@@ -268,12 +300,24 @@ def gen_graph(rng, n, shape, weird, spell=False):
         for s in reqs:
             if s[0] == "path" or (s[0] == "p" and s[2][0] == "path"):
                 for nme in flat_bound(s, provs):
+                    if nme.split(".")[-1].split("-")[-1][:1] == "m":
+                        continue        # only a module's own macros can be provided
                     if nme not in defs and nme not in [q[0] for q in pv] and rng.random() < 0.2:
                         pv.append((nme, False))
         if not pv and rng.random() < 0.8:
             pv.append((defs[0], False))
-        mods.append({"defs": defs, "provs": pv, "reqs": reqs, "dir": rng.choice(DIRS) if spell else ""})
-        provs.append([q[0] for q in pv])
+        macs, mprovs, fsprovs = [], [], []
+        if macros and rng.random() < 0.7:
+            macs = rng.sample(MAC_NAMES, rng.randint(1, 2))
+            for mname in macs:
+                u = rng.random()
+                if u < 0.55:
+                    fsprovs.append(mname)
+                elif u < 0.8:
+                    mprovs.append(mname)        # else: a private macro
+        mods.append({"defs": defs, "provs": pv, "reqs": reqs, "dir": rng.choice(DIRS) if spell else "",
+                     "macs": macs, "mprovs": mprovs, "fsprovs": fsprovs})
+        provs.append([q[0] for q in pv] + fsprovs + mprovs)
     return mods, provs
 
 
@@ -293,13 +337,16 @@ def gen_requests(rng, mods, provs, nreq, weird, spell=False):
 
 def observe_list(c):
     names = set(NAMES)
+    if any(m.get("macs") for m in c["mods"]):
+        names |= set(MAC_NAMES)
     for m in c["mods"]:
         for s in m["reqs"]:
             names |= all_mentioned(s)
     for r in c["reqs"]:
         for s in r["reqs"]:
             names |= all_mentioned(s)
-    provided = set(n for m in c["mods"] for n, _ in m["provs"])
+    provided = set(n for m in c["mods"] for n, _ in m["provs"]) | set(
+        n for m in c["mods"] for n in m.get("mprovs", []) + m.get("fsprovs", []))
     for pf in PREFIXES:
         for s in [q for m in c["mods"] for q in m["reqs"]] + [q for r in c["reqs"] for q in r["reqs"]]:
             if pf in spec_text(s):
@@ -316,7 +363,9 @@ def gen_cases(rng, ngraphs, max_mods, orders, tag):
         weird = rng.random() < 0.3      # forms on which flattening and composing modifiers differ
         # one file reached through several spellings of its path (sub-directories, ./, zz/.., symlinks)
         spell = rng.random() < 0.5
-        mods, provs = gen_graph(rng, n, shape, weird, spell)
+        # modules that define, provide (as identifier / for-syntax) and use macros
+        macros = rng.random() < 0.3
+        mods, provs = gen_graph(rng, n, shape, weird, spell, macros)
         base = gen_requests(rng, mods, provs, rng.randint(3, 6), weird, spell)
         seen = set()
         for oi in range(orders):
@@ -453,7 +502,8 @@ def first_diff(a, b):
     return "length %d vs %d" % (len(a), len(b))
 
 
-VARIANT_KEYS = ["", "m", "R", "C"]
+FIX_FLAGS = "".join(sorted(f for f, _ in FIXES.values()))
+VARIANT_KEYS = ["".join(c) for n in range(len(FIX_FLAGS) + 1) for c in itertools.combinations(FIX_FLAGS, n)] + ["R", "C"]
 
 
 def evaluate(ctx, texts, label, stats, known_ids):
@@ -467,25 +517,37 @@ def evaluate(ctx, texts, label, stats, known_ids):
         return
     alltext = "".join(el_cases)
     variants = {}
-    for key in VARIANT_KEYS + ["spec"]:
-        mode = "spec" if key == "spec" else ("model" if key == "" else "variant:" + key)
-        rc, out, err = driver(mode, alltext)
-        if rc != 0:
-            ctx.violation("C14-driver-failed.txt", "c14driver %s: rc=%d\n%s" % (mode, rc, err[-2000:]), no_input=True)
-            return
-        variants[key] = split_cases(out)
+
+    def run_variants(keys, text):
+        jobs = [(k, "spec" if k == "spec" else ("model" if k == "" else "variant:" + k)) for k in keys]
+        for (k, mode), (rc, out, err) in zip(jobs, C.pool_map(lambda j: driver(j[1], text), jobs)):
+            if rc != 0:
+                ctx.violation("C14-driver-failed.txt", "c14driver %s: rc=%d\n%s" % (mode, rc, err[-2000:]), no_input=True)
+                return False
+            variants.setdefault(k, {}).update(split_cases(out))
+        return True
+    if not run_variants(["", "spec"], alltext):
+        return
     rc, gout, err = driver("guard", alltext)
     if rc != 0:
         ctx.violation("C14-driver-failed.txt", "c14driver guard: rc=%d\n%s" % (rc, err[-2000:]), no_input=True)
         return
     guards = split_cases(gout)
     real = run_real(ctx, el_cases, label)
+    # the repaired / legacy variants of the model are needed only where the real engine differs from S
+    off = [t for t in el_cases
+           if strip_extra(real.get(t.split()[1], ["missing"])) != variants["spec"].get(t.split()[1])]
+    if off and not run_variants([k for k in VARIANT_KEYS if k != ""], "".join(off)):
+        return
     for t in el_cases:
         cid = t.split()[1]
         rl = real.get(cid, ["missing"])
-        v = {k: variants[k].get(cid, ["missing"]) for k in variants}
+        v = {k: variants[k][cid] for k in variants if cid in variants[k]}
+        v.setdefault("", ["missing"])
+        v.setdefault("spec", ["missing"])
         stats["cases"] += 1
         stats["spelled"] += 1 if re.search(r"^req \S*~", t, re.M) else 0
+        stats["with_macros"] += 1 if re.search(r"^mac ", t, re.M) else 0
         stats["evaluations"] += t.count("\nrequest\n")
         stats["obs"] += sum(len(l.split()) - 1 for l in rl if l.startswith("obs"))
         for l in rl:
@@ -592,7 +654,7 @@ def evaluate_quiet(ctx, texts, stats, known_ids):
 def new_stats():
     return {"cases": 0, "evaluations": 0, "obs": 0, "mangle_checked": 0, "mangle_bad": [], "status": {},
             "spec_kinds": {}, "nontrivial": set(), "class": {}, "samples": [], "known_hits": {},
-            "pending": [], "bad": [], "poke_hits": [], "spelled": 0,
+            "pending": [], "bad": [], "poke_hits": [], "spelled": 0, "with_macros": 0,
             "guard": {"graphs_in_guard": 0, "graphs_outside": 0, "requests_in_guard": 0, "requests_total": 0}}
 
 
@@ -616,12 +678,25 @@ def run(ctx):
     if trc != 0:
         ctx.violation("C14-translator.txt", "translate/c14_constants.py no longer parses modules.rs / mangle.rs:\n"
                       + json.dumps(facts, indent=1) + "\n", no_input=True)
+    trc2, tout2 = C.sh(["python3", os.path.join(C.VERIF, "translate", "c14_tables.py"), C.REPO,
+                        os.path.join(C.LEAN, "SteelVerif", "C14", "GenTables.lean")], timeout=60)
+    try:
+        tables = json.loads(tout2.strip().splitlines()[-1])
+    except (ValueError, IndexError):
+        tables = {"errors": [tout2[-500:]]}
+    if trc2 != 0:
+        ctx.violation("C14-translator-tables.txt", "translate/c14_tables.py no longer parses analysis.rs / compiler.rs / "
+                      "modules.rs / contracts.scm:\n" + json.dumps(tables, indent=1) + "\n", no_input=True)
     pr = C.prove(ctx, "C14", ["c14driver"])
     ok, log = C.build_harness(ctx, ["c14"])
     base_cov = {"obligations": pr["obligations"], "discharged": pr["discharged"],
                 "checker_cmd": "cd lean && lake build SteelVerif.C14.Props && lake env lean SteelVerif/C14/Audit.lean",
                 "trusted_base": C.TRUSTED_BASE + ["translate/c14_constants.py (regex extraction of the mangling "
-                                                  "constants, the prefix layout and try_canonicalize)"]}
+                                                  "constants, the prefix layout and try_canonicalize)",
+                                                  "translate/c14_tables.py (bracket matching over "
+                                                  "remove_unused_globals_with_prefix, the arms of "
+                                                  "parse_require_object_inner, an s-expression reader over "
+                                                  "contracts.scm)"]}
     if not ok:
         ctx.violation("C14-harness-build.txt", "the harness no longer builds against /repo:\n" + log, no_input=True)
         ctx.coverage = base_cov
@@ -708,17 +783,26 @@ def run(ctx):
         "require_spec_shapes": stats["spec_kinds"],
         "private_defines_found_under_mangled_name": stats["mangle_checked"],
         "translated_from_source": facts,
+        "translated_tables": tables,
         "cases_with_respelled_paths": stats["spelled"],
+        "cases_with_macros": stats["with_macros"],
         "refinement_guard": stats["guard"],
         "axioms": pr.get("axioms", {}),
         "proof_failures": ["%s: %s" % f for f in pr["failed"]],
     })
-    ctx.assumptions = ["module files are not modified while the engine lives", "no macros / for-syntax in generated modules"]
+    ctx.assumptions = ["module files are not modified while the engine lives",
+                       "every observed name is probed in a top-level expression of its own (see K14h)"]
     return ctx.finish("proof")
 
 
 def replay(ctx, path):
     txt = "".join(l for l in open(path) if not l.startswith("#"))
+    if re.match(r"\s*(file |run\b)", txt):
+        # free-form replay (`c14 --raw`): files and programs, no model involved
+        C.build_harness(ctx, ["c14"])
+        rc, out, err = C.run_bin([C.bin_path("c14"), "--raw", os.path.join(ctx.scratch, "raw")], txt, timeout=120)
+        print(out)
+        return 0
     cases = re.findall(r"^case .*?^endcase\n", txt, re.M | re.S)
     C.build_harness(ctx, ["c14"])
     el = elab("".join(re.sub(r"^view .*\n", "", t, flags=re.M) for t in cases))
